@@ -322,6 +322,12 @@ def m_vec_range_index(ex, st, callee, args):
     return [(None, Ref(key))]
 
 
+def m_slice_get_range(ex, st, callee, args):
+    """<[T]>::get(range) -> Option<&[T]> (bounds concrete on the path)"""
+    res = m_vec_range_index(ex, st, callee, args)
+    return [(c, NONE if isinstance(v, Panic) else some(v)) for c, v in res]
+
+
 def m_iter_rev(ex, st, callee, args):
     it = args[0]
     if not (isinstance(it, Adt) and it.ty == "SliceIter"):
@@ -396,6 +402,7 @@ def install(m):
         (r"^(core::)?slice::<impl \[.*\]>::(get|get_mut)::<usize>$|^Vec::<.*>::(get|get_mut)$", m_vec_get),
         (r"^GcCellRef(Mut)?::<.*>::map::<", m_guard_map),
         (r"^<Vec<.*> as Index<(std::ops::)?Range(To|From|Full)?(<usize>)?>>::index$|^(core::)?slice::index::<impl Index<(std::ops::)?Range(To|From|Full)?(<usize>)?> for \[.*\]>::index$", m_vec_range_index),
+        (r"^(core::)?slice::<impl \[.*\]>::get::<(std::ops::)?Range(To|From|Full)?(<usize>)?>$", m_slice_get_range),
         (r"^<std::slice::Iter<'_, .*> as Iterator>::rev$", m_iter_rev),
         (r"^<Rev<std::slice::Iter<'_, .*>> as IntoIterator>::into_iter$", m_iter_into_iter),
         (r"^<Rev<std::slice::Iter<'_, .*>> as Iterator>::next$", m_rev_next),
